@@ -17,10 +17,12 @@ func register(id string, run func(string) *engine.Report, replay func(engine.Vio
 func init() {
 	register("C06", C06, C06Replay)
 	register("C07", C07, C07Replay)
+	register("C08", C08, C08Replay)
 	register("C09", C09, C09Replay)
 	register("C10", C10, C10Replay)
 	register("C11", C11, C11Replay)
 	register("C15", C15, C15Replay)
 	register("C16", C16, C16Replay)
+	register("C19", C19, C19Replay)
 	register("C20", C20, C20Replay)
 }
